@@ -84,6 +84,13 @@ type baseNode struct {
 	vcache cache.Cache[*enode.Node, uint8]
 }
 
+// shutdown takes the node off the network (crash / stop): sockets closed, nothing else survives.
+func (b *baseNode) shutdown() {
+	b.utp.Stop()
+	b.disc.Close()
+	b.sock.Close()
+}
+
 func (b *baseNode) self() *enode.Node { return b.ln.Node() }
 func (b *baseNode) id() enode.ID      { return b.ln.ID() }
 func (b *baseNode) enr() string       { return b.ln.Node().String() }
